@@ -250,6 +250,8 @@ RepOut(plats) ==
   [setmap |-> [j \in 1..Len(ks) |-> [k |-> SetToSeq(ks[j]), n |-> tab[ks[j]]]],
    total |-> Sloc(L), tree |-> TreeOut(L), ptree |-> TreeOut(Pruned(L)),
    cov |-> [f \in FilesOf(L) |-> CovExport(L, f)],
+   \* the distance matrix of the clustering report (Metrics.Distance: <<num, den>>, <<0, 0>> = NaN)
+   dist |-> [p \in plats |-> [q \in plats |-> Distance(tab, p, q)]],
    laws |-> RowsPartition(L) /\ DirIsSumOfChildren(L) /\ RootIsSummary(L) /\ PruneDropsExactlyUnused(L)
             /\ UsedUnusedPartition(L)]
 WithReports == Profile = "c06"
